@@ -89,7 +89,8 @@ class LtlAstParserVisitor(LtlParserVisitor):
                 if id_tail:
                     raise RTAMTException('{0} refers to undeclared variable {1} of unknown type'.format(id, id_head))
                 else:
-                    self.declare_var(id, 'float')
+                    # (an identifier may end with a dot: the variable is what precedes it)
+                    self.declare_var(id_head, 'float')
                     logging.warning('The variable {} is not explicitely declared. It is implicitely declared as a '
                                 'variable of type float'.format(id))
 
